@@ -10874,3 +10874,289 @@ func E11SplitKeepsEndpoint(c *core.Ctx, r *core.Report) {
 	r.Count("E11.split-keeps-endpoint", n)
 	r.Floor("E11.split-keeps-endpoint", 2)
 }
+
+// E11MatrixComposers: a Matrix method that composes does so by multiplication only.
+func E11MatrixComposers(c *core.Ctx, r *core.Report) {
+	r.Rule("E11.matrix-composers", "Matrix documents that its transformation methods compose on the right: m.Op(…) is m·Op. The methods that build their result by calling Mul or another Matrix-returning method (Translate, Rotate, RotateAbout, Scale, ScaleAbout, Shear, ShearAbout, the reflections) therefore get it from such calls alone and never write an element of a Matrix value themselves: a correction added straight into the translation column (`m[0][2] += …`) is not mapped through the receiver's linear part, so the method is right on the identity and on pure translations only — RotateAbout on a scaled receiver would move the pivot")
+	p := c.MustPkg("")
+	info := p.TypesInfo
+	isMatrix := func(t types.Type) bool {
+		nt, ok := t.(*types.Named)
+		return ok && nt.Obj().Name() == "Matrix" && nt.Obj().Pkg() == p.Types
+	}
+	n := 0
+	for _, fd := range core.AllFuncDecls(p) {
+		if fd.Recv == nil || fd.Body == nil || core.RecvName(fd) != "Matrix" || fd.Type.Results.NumFields() != 1 {
+			continue
+		}
+		if !isMatrix(info.TypeOf(fd.Type.Results.List[0].Type)) {
+			continue
+		}
+		composes := false
+		var write ast.Node
+		ast.Inspect(fd.Body, func(m ast.Node) bool {
+			switch x := m.(type) {
+			case *ast.CallExpr:
+				if se, ok := x.Fun.(*ast.SelectorExpr); ok {
+					if t := info.TypeOf(se.X); t != nil && isMatrix(t) {
+						if rt := info.TypeOf(x); rt != nil && isMatrix(rt) {
+							composes = true
+						}
+					}
+				}
+			case *ast.AssignStmt:
+				for _, l := range x.Lhs {
+					e := core.Unparen(l)
+					for {
+						ie, ok := e.(*ast.IndexExpr)
+						if !ok {
+							break
+						}
+						if t := info.TypeOf(ie.X); t != nil && isMatrix(t) && write == nil {
+							write = x
+						}
+						e = core.Unparen(ie.X)
+					}
+				}
+			case *ast.IncDecStmt:
+				if ie, ok := core.Unparen(x.X).(*ast.IndexExpr); ok {
+					if ie2, ok := core.Unparen(ie.X).(*ast.IndexExpr); ok {
+						if t := info.TypeOf(ie2.X); t != nil && isMatrix(t) && write == nil {
+							write = x
+						}
+					}
+				}
+			}
+			return true
+		})
+		if !composes {
+			continue
+		}
+		n++
+		key := "canvas." + core.FuncName(fd) + "|composes by multiplication only"
+		if write == nil {
+			r.OK("E11.matrix-composers", key, c.Pos(fd.Pos()), "")
+		} else {
+			r.Fail("E11.matrix-composers", key, c.Pos(write.Pos()), fmt.Sprintf("%s composes through a Matrix method and then writes an element of a Matrix directly: what is added to an entry is not multiplied by the receiver's linear part, so the result equals m·Op only when the receiver is the identity or a translation", core.FuncName(fd)))
+		}
+	}
+	r.Count("E11.matrix-composers", n)
+	r.Floor("E11.matrix-composers", 8)
+}
+
+// E11LayerMatrixLeft: a transformation of the whole canvas goes on the left of a layer's matrix.
+func E11LayerMatrixLeft(c *core.Ctx, r *core.Report) {
+	r.Rule("E11.layer-matrix-left", "a layer's matrix maps the layer's own coordinates to canvas millimetres; a transformation of the canvas (Transform, Clip and Fit through it, the view of RenderViewTo) acts on canvas millimetres and is therefore applied after it: wherever a new matrix is derived from the `m` field of a layer, the field is the argument of Mul (T·l.m), never the receiver of a Matrix method (l.m·T). Matrix methods compose on the right, so `l.m.Translate(-x0, -y0)` shifts in the layer's local coordinates: right for layers whose matrix is a pure translation, wrong under CartesianII–IV or any scaled, rotated or reflected view")
+	p := c.MustPkg("")
+	info := p.TypesInfo
+	isLayerM := func(e ast.Expr) bool {
+		se, ok := core.Unparen(e).(*ast.SelectorExpr)
+		if !ok {
+			return false
+		}
+		s := info.Selections[se]
+		if s == nil || s.Kind() != types.FieldVal {
+			return false
+		}
+		v, ok := s.Obj().(*types.Var)
+		if !ok {
+			return false
+		}
+		rt := s.Recv()
+		if pt, ok := rt.(*types.Pointer); ok {
+			rt = pt.Elem()
+		}
+		nt, ok := rt.(*types.Named)
+		if !ok || nt.Obj().Name() != "layer" || nt.Obj().Pkg() != p.Types {
+			return false
+		}
+		mt, ok := v.Type().(*types.Named)
+		return ok && mt.Obj().Name() == "Matrix"
+	}
+	n := 0
+	for _, fd := range core.AllFuncDecls(p) {
+		if fd.Body == nil || strings.HasSuffix(c.Fset.Position(fd.Pos()).Filename, "_test.go") {
+			continue
+		}
+		k := 0
+		ast.Inspect(fd.Body, func(m ast.Node) bool {
+			call, ok := m.(*ast.CallExpr)
+			if !ok {
+				return true
+			}
+			se, ok := call.Fun.(*ast.SelectorExpr)
+			if !ok {
+				return true
+			}
+			rt := info.TypeOf(call)
+			nt, isNamed := rt.(*types.Named)
+			if !isNamed || nt.Obj().Name() != "Matrix" {
+				return true
+			}
+			if isLayerM(se.X) {
+				k++
+				n++
+				r.Fail("E11.layer-matrix-left", fmt.Sprintf("canvas.%s|matrix derived from a layer #%d", core.FuncName(fd), k), c.Pos(call.Pos()), fmt.Sprintf("`%s` applies %s on the right of the layer's matrix, i.e. in the layer's own coordinates; a transformation of the canvas is in millimetres of the canvas and belongs on the left (T.Mul(l.m)). The result is the same only for layers whose matrix is a pure translation", types.ExprString(call), se.Sel.Name))
+				return true
+			}
+			if se.Sel.Name == "Mul" && len(call.Args) == 1 && isLayerM(call.Args[0]) {
+				k++
+				n++
+				r.OK("E11.layer-matrix-left", fmt.Sprintf("canvas.%s|matrix derived from a layer #%d", core.FuncName(fd), k), c.Pos(call.Pos()), types.ExprString(call))
+			}
+			return true
+		})
+	}
+	r.Count("E11.layer-matrix-left", n)
+	r.Floor("E11.layer-matrix-left", 2)
+}
+
+// E11SinkForwardsEverySegment: the raster sinks hand every drawing command to the scanner on every path.
+func E11SinkForwardsEverySegment(c *core.Ctx, r *core.Report) {
+	r.Rule("E11.sink-forwards-every-segment", "Path.ToScanxScanner and Path.ToVectorRasterizer walk the command stream and hand it to the scan converter. Every path through the case of a drawing command (line, quadratic, cubic, arc, close) reaches a call on the sink — directly, or in the loop over the flattened curve — before the case ends: no `break` or `continue` leaves the case earlier. A curve segment may not be skipped for ending where it starts: a cubic whose end point equals its start point is a loop that encloses area (Contains and Flatten treat it so), and skipping it leaves its interior unpainted")
+	p := c.MustPkg("")
+	info := p.TypesInfo
+	n := 0
+	for _, name := range []string{"Path.ToScanxScanner", "Path.ToVectorRasterizer"} {
+		fd := core.MustFuncDecl(p, name)
+		r.Func("canvas." + name)
+		// the sink: the first parameter of pointer type from another package
+		var sink types.Object
+		for _, f := range fd.Type.Params.List {
+			for _, nm := range f.Names {
+				if pt, ok := info.TypeOf(f.Type).(*types.Pointer); ok && sink == nil {
+					if nt, ok := pt.Elem().(*types.Named); ok && nt.Obj().Pkg() != p.Types {
+						sink = info.Defs[nm]
+					}
+				}
+			}
+		}
+		if sink == nil {
+			panic(core.Infra(name + ": sink parameter not found"))
+		}
+		callsSink := func(st ast.Stmt) bool {
+			hit := false
+			ast.Inspect(st, func(m ast.Node) bool {
+				if call, ok := m.(*ast.CallExpr); ok {
+					if se, ok := call.Fun.(*ast.SelectorExpr); ok {
+						if id, ok := core.Unparen(se.X).(*ast.Ident); ok && core.ObjOf(info, id) == sink {
+							hit = true
+						}
+					}
+				}
+				return !hit
+			})
+			return hit
+		}
+		for _, cc := range cmdSwitchClauses(p, fd) {
+			label := core.CaseLabel(info, cc)
+			if cc.List == nil || strings.Contains(label, "MoveToCmd") {
+				continue
+			}
+			n++
+			key := fmt.Sprintf("canvas.%s|%s|reaches the sink on every path", name, label)
+			// a statement that is a loop or plain call containing a sink call discharges; an if that contains one does
+			// not (its body is walked)
+			hit := func(st ast.Stmt) bool {
+				switch st.(type) {
+				case *ast.IfStmt, *ast.BlockStmt:
+					return false
+				}
+				return callsSink(st)
+			}
+			if ok, bad := cpsMustHitOpt(cc.Body, hit, true); ok {
+				r.OK("E11.sink-forwards-every-segment", key, c.Pos(cc.Pos()), "")
+			} else {
+				pos := cc.Pos()
+				if bad != nil {
+					pos = bad.Pos()
+				}
+				r.Fail("E11.sink-forwards-every-segment", key, c.Pos(pos), fmt.Sprintf("a path through `%s` leaves the case (or reaches its end) without a call on the scan converter: the segment is dropped for some inputs. A curve that ends where it starts is not empty — a cubic loop encloses area — so its interior stays unpainted", label))
+			}
+		}
+	}
+	r.Count("E11.sink-forwards-every-segment", n)
+	r.Floor("E11.sink-forwards-every-segment", 6)
+}
+
+// E11CutsSortedBeforeUse: SplitAt orders its cut list before it looks at any element of it.
+func E11CutsSortedBeforeUse(c *core.Ctx, r *core.Report) {
+	r.Rule("E11.cuts-sorted-before-use", "Path.SplitAt accepts its cut positions in any order and walks them with one index that only moves when a cut is made, so the list must be increasing before any element of it is read: every index or range expression on the cut list sits in a top-level statement of SplitAt that comes after the statement that sorts it (`sort.Float64s`, possibly guarded by `!sort.Float64sAreSorted`). A test of the first element made before the sort — dropping a leading 0 — sees the first element as given, not the smallest; a 0 elsewhere in the list then sorts to the front, the walk never gets past it and SplitAt returns the path in one piece")
+	p := c.MustPkg("")
+	info := p.TypesInfo
+	fd := core.MustFuncDecl(p, "Path.SplitAt")
+	r.Func("canvas.Path.SplitAt")
+	var cuts types.Object
+	for _, f := range fd.Type.Params.List {
+		if _, ok := f.Type.(*ast.Ellipsis); ok && len(f.Names) == 1 {
+			cuts = info.Defs[f.Names[0]]
+		}
+	}
+	if cuts == nil {
+		panic(core.Infra("SplitAt: variadic cut list not found"))
+	}
+	isCuts := func(e ast.Expr) bool {
+		id, ok := core.Unparen(e).(*ast.Ident)
+		return ok && core.ObjOf(info, id) == cuts
+	}
+	sortIdx := -1
+	for i, st := range fd.Body.List {
+		found := false
+		ast.Inspect(st, func(m ast.Node) bool {
+			if call, ok := m.(*ast.CallExpr); ok && len(call.Args) == 1 && isCuts(call.Args[0]) {
+				if f := core.CalleeOf(info, call); f != nil && f.Pkg() != nil && f.Pkg().Path() == "sort" && (f.Name() == "Float64s") {
+					found = true
+				}
+			}
+			return true
+		})
+		if found && sortIdx < 0 {
+			// unconditional, or guarded by the negated sortedness test only
+			switch x := st.(type) {
+			case *ast.ExprStmt:
+				sortIdx = i
+			case *ast.IfStmt:
+				if u, ok := core.Unparen(x.Cond).(*ast.UnaryExpr); ok && u.Op == token.NOT {
+					if call, ok := core.Unparen(u.X).(*ast.CallExpr); ok {
+						if f := core.CalleeOf(info, call); f != nil && f.Name() == "Float64sAreSorted" && x.Else == nil {
+							sortIdx = i
+						}
+					}
+				}
+			}
+		}
+	}
+	key := "canvas.Path.SplitAt|the cut list is sorted before any element is read"
+	r.Count("E11.cuts-sorted-before-use", 1)
+	if sortIdx < 0 {
+		r.Fail("E11.cuts-sorted-before-use", key, c.Pos(fd.Pos()), "no top-level statement of SplitAt sorts the cut list unconditionally (sort.Float64s, or that call under `if !sort.Float64sAreSorted(…)`): cuts given out of order are walked as they come and those behind a larger one are dropped")
+		return
+	}
+	var early ast.Node
+	reads := 0
+	for i, st := range fd.Body.List {
+		ast.Inspect(st, func(m ast.Node) bool {
+			var target ast.Expr
+			switch x := m.(type) {
+			case *ast.IndexExpr:
+				target = x.X
+			case *ast.RangeStmt:
+				target = x.X
+			}
+			if target != nil && isCuts(target) {
+				reads++
+				if i < sortIdx && early == nil {
+					early = m
+				}
+			}
+			return true
+		})
+	}
+	r.Count("E11.cut-list-reads", reads)
+	r.Floor("E11.cut-list-reads", 4)
+	if early == nil {
+		r.OK("E11.cuts-sorted-before-use", key, c.Pos(fd.Body.List[sortIdx].Pos()), fmt.Sprintf("%d element reads, all after the sort", reads))
+	} else {
+		r.Fail("E11.cuts-sorted-before-use", key, c.Pos(early.Pos()), fmt.Sprintf("`%s` is read before the cut list is sorted: it is the first element as the caller gave it, not the smallest. A decision taken on it (dropping a leading 0) misses a 0 given later in the list, which then sorts to the front; the walk's index never moves past a cut that is not greater than the position reached, every cut is dropped and the path comes back in one piece", c.Src(early)))
+	}
+}
